@@ -64,7 +64,7 @@ func genCase(prop string) func(t *rapid.T) Case {
 			case "release", "release2", "invalidate", "cancel", "crelease":
 				op.Pick = rapid.IntRange(0, 5).Draw(t, "pick")
 			case "setctx":
-				op.Ctx = rapid.SampledFrom([]string{"new", "new", "same", "nil"}).Draw(t, "ctx")
+				op.Ctx = rapid.SampledFrom([]string{"new", "new", "new", "same", "nil", "wrap", "plain"}).Draw(t, "ctx")
 			case "finish":
 				op.Out = rapid.SampledFrom([]string{"val", "val", "val", "valnorel", "valsame", "valzero", "valerr", "err", "errrel", "errcanceled"}).Draw(t, "out")
 				op.Pick = rapid.IntRange(0, 3).Draw(t, "pick")
@@ -227,11 +227,37 @@ func body(c *sched.Ctl, cs Case, v *ev.Verdict) {
 	var cancels []context.CancelFunc
 	ctxs = append(ctxs, nil)
 	cancels = append(cancels, nil)
+	grp := map[int]int{} // context id -> id of the context whose cancellation it shares
 	newCtx := func() int {
 		ctx, cancel := context.WithCancel(context.Background())
 		ctxs = append(ctxs, ctx)
 		cancels = append(cancels, cancel)
+		grp[len(ctxs)-1] = len(ctxs) - 1
 		return len(ctxs) - 1
+	}
+	// a different context value that shares the cancellation (and the Done channel) of an earlier one
+	type ctxKey struct{}
+	wrapCtx := func(parent int) int {
+		ctxs = append(ctxs, context.WithValue(ctxs[parent], ctxKey{}, len(ctxs)))
+		cancels = append(cancels, cancels[parent])
+		grp[len(ctxs)-1] = grp[parent]
+		return len(ctxs) - 1
+	}
+	// the two contexts that are never cancelled (nil Done channel), distinct values
+	plainIDs := [2]int{}
+	plainCtx := func(cur int) int {
+		for i, c := range []context.Context{context.Background(), context.TODO()} {
+			if plainIDs[i] == 0 {
+				ctxs = append(ctxs, c)
+				cancels = append(cancels, nil)
+				plainIDs[i] = len(ctxs) - 1
+				grp[plainIDs[i]] = plainIDs[i]
+			}
+		}
+		if cur == plainIDs[0] {
+			return plainIDs[1]
+		}
+		return plainIDs[0]
 	}
 	var calls []*callInst
 	var hrefs []*hRef
@@ -253,6 +279,7 @@ func body(c *sched.Ctl, cs Case, v *ev.Verdict) {
 	repeatedValue, sentinelError, zeroValue := false, false, false
 	rootCancelled := false
 	rootDead := map[int]bool{}
+	sharedDone := false // a SetContext replaced the context by a different value with the same Done channel
 	invOps := map[string]*sched.Op{}
 
 	// ---- resolver ----
@@ -526,7 +553,7 @@ func body(c *sched.Ctl, cs Case, v *ev.Verdict) {
 		// a wanted resolution must be under way
 		// (a root context cancelled from outside is a dead context: whether resolution is attempted
 		// under it is not decided by the property)
-		if m.ctxID != 0 && !rootDead[m.ctxID] && m.liveRefs() > 0 && !m.resolved {
+		if m.ctxID != 0 && !rootDead[grp[m.ctxID]] && m.liveRefs() > 0 && !m.resolved {
 			inflight := false
 			for _, ci := range calls {
 				if !ci.returned {
@@ -668,6 +695,16 @@ func body(c *sched.Ctl, cs Case, v *ev.Verdict) {
 				cid = newCtx()
 			case "nil":
 				cid = 0
+			case "wrap":
+				if cid != 0 && !rootDead[grp[cid]] {
+					cid = wrapCtx(cid)
+					sharedDone = true
+				} else {
+					cid = newCtx()
+				}
+			case "plain":
+				cid = plainCtx(cid)
+				sharedDone = true
 			}
 			var want bool
 			pendingMut[label] = func() {
@@ -701,7 +738,7 @@ func body(c *sched.Ctl, cs Case, v *ev.Verdict) {
 			}
 			rootCancelled = true
 			hm.Lock()
-			rootDead[cid] = true
+			rootDead[grp[cid]] = true
 			hm.Unlock()
 			cancels[cid]()
 		case "finish":
@@ -934,7 +971,20 @@ func body(c *sched.Ctl, cs Case, v *ev.Verdict) {
 						}
 					}
 				}
-				m.RemoveRef(cn.m)
+				tgt := cn.m
+				if !tgt.live {
+					// this call took a section, so the consumer's reference was still held until
+					// now: the released-notification goroutine that the machine attributed to it
+					// (those goroutines cannot be told apart) was another invalidated consumer's
+					for k, q := range fireQueue {
+						if q != cn && q.m.live {
+							tgt = q.m
+							fireQueue = append(fireQueue[:k], fireQueue[k+1:]...)
+							break
+						}
+					}
+				}
+				m.RemoveRef(tgt)
 			}
 			hm.Unlock()
 			c.Go(label, func() { cn.relFn() })
@@ -1101,6 +1151,9 @@ func body(c *sched.Ctl, cs Case, v *ev.Verdict) {
 	}
 	if twoRestarts {
 		v.Class("two-restarts-while-a-resolver-call-is-returning")
+	}
+	if sharedDone {
+		v.Class("context-replaced-by-one-with-the-same-done-channel")
 	}
 	if invalBetweenLookAndReturn || invalWhileHeld {
 		v.SetNT("C10")
